@@ -693,6 +693,8 @@ def handleLApply (id : String) (args : List String) : String :=
       -- C18's domain: "strings compared by test operations are spelled without escapes and
       -- without <, >, &" (v4 compares spellings, and `copy` re-spells its value with HTML escapes)
       let escapes : Bool := p.contains 92 || d.contains 92 || hasRawHtml p || hasRawHtml d
+        -- the legacy package compares strings as raw bytes: invalid UTF-8 (which decodes to U+FFFD) is outside the statement
+        || !isValidUtf8 d || !isValidUtf8 p
       let listed (i : Nat) (c : Spec.Cause) : Bool :=
         let k := opKindAt p i
         c = .testUnequal || c = .badIndex
@@ -732,7 +734,8 @@ def handleLEqual (id : String) (args : List String) : String :=
       let v19 : Verdict :=
         match got, parseValueOf x, parseValueOf y with
         | some g, some va, some vb =>
-          if !(va.isContainer && vb.isContainer) || x.contains 92 || y.contains 92 || !(va.noDup && vb.noDup) then .unspec
+          if !(va.isContainer && vb.isContainer) || x.contains 92 || y.contains 92 || !(va.noDup && vb.noDup)
+              || !isValidUtf8 x || !isValidUtf8 y then .unspec
           else if Value.eqv va vb then (if g then .ok else .viol "equal-values-reported-different")
           else if Spec.numEqv va vb then .unspec
           else (if g then .viol "different-values-reported-equal" else .ok)
